@@ -10,4 +10,4 @@ for k in 1 2; do
   SV=/tmp/sv.$P /verif/tools/seedintake.sh /tmp/seed/$P-out $k $P-$n $RACE > /tmp/seed/$P-out/intake$k.log 2>&1
   echo "$P-$n: $(grep -A2 'demo without' /tmp/seed/$P-out/intake$k.log | tail -1 | cut -c1-60) | suite: $(sed -n '/build + suite/,/demo with change/p' /tmp/seed/$P-out/intake$k.log | grep -c FAIL) fail-lines | with: $(grep -A4 'demo with change' /tmp/seed/$P-out/intake$k.log | grep -E '^(FAIL|ok|---)' | tail -1 | cut -c1-60) | fired: $(grep -E '^--- C' /tmp/seed/$P-out/intake$k.log | tr '\n' ' ')"
 done
-[ -f /tmp/seed/$P-out/preexisting.md ] && cp /tmp/seed/$P-out/preexisting.md /verif/seeded/_preexisting_round9_$P.md
+[ -f /tmp/seed/$P-out/preexisting.md ] && cp /tmp/seed/$P-out/preexisting.md /verif/seeded/_preexisting_round${ROUND:-10}_$P.md
